@@ -214,7 +214,7 @@ _REJ = re.compile(r'TRACE_REJECTED_AT",\s*(\d+)')
 _INVV = re.compile(r"Error: Invariant (\w+) is violated")
 _PROPV = re.compile(r"Error: Action property (\w+) is violated")
 _L = re.compile(r"^/\\ l = (\d+)", re.M)
-_CONTRACT = re.compile(r'<<"CONTRACT",\s*"([^"]*)">>')
+_CONTRACT = re.compile(r'<<\s*"CONTRACT",\s*"([^"]*)"\s*>>')
 
 
 def split_runs(tracefile, nchunks, outdir, reset_key="reset"):
@@ -259,7 +259,7 @@ def _validate_file(pid, module, cfg, path, idx, timeout):
     return rc, out
 
 
-_SOFT = re.compile(r'"SOFT_VIOLATION",\s*"(\w+)",\s*(\d+)')
+_SOFT = re.compile(r'"SOFT_VIOLATION",\s*"(\w+)",\s*(\d+)(?:,\s*"([^"]*)")?')
 
 
 def _soft(out, runs):
@@ -272,6 +272,7 @@ def _soft(out, runs):
         starts.append(pos)
         pos += len(r)
     import bisect
+    whys = {}
     for m in _SOFT.finditer(out):
         name, l = m.group(1), int(m.group(2))
         at = l - 1                      # the state was reached by consuming event l-1 (1-based line)
@@ -282,7 +283,9 @@ def _soft(out, runs):
         rel = at - starts[k]
         if key not in first or rel < first[key]:
             first[key] = rel
-    return [{"run": [json.loads(x) for x in runs[k]], "at": rel, "reason": "%s violated after this event" % name}
+            whys[key] = m.group(3)
+    return [{"run": [json.loads(x) for x in runs[k]], "at": rel,
+             "reason": "%s violated after this event%s" % (name, (": " + whys[(k, name)]) if whys.get((k, name)) else "")}
             for (k, name), rel in sorted(first.items())]
 
 
